@@ -206,12 +206,15 @@ PROPS = {
         level="model_checking",
         level_text="as C09, with the rejected-write action of the specification: the error names (file type, offered type), the "
                    "call touches no destination, the final bytes equal those of the accepted shapes alone; all 156 ordered type pairs",
-        level_note="trusted: TLC, the instrumented destinations; the row side of the complete Writer is covered by C08",
+        level_note="trusted: TLC, the instrumented destinations; the row side is checked on the complete Writer through Complete.tla (shared with C08)",
         technique=TECH_TRACE,
         mc=[WRITER_MC],
         stages=[dict(cmd="writer", spec="Trace_Writer", histfile=True,
                      quick=dict(chunks=8, maxlen=2, random=4, allx=1, modeltypes=3),
-                     thorough=dict(chunks=16, maxlen=5, random=40, allx=1))],
+                     thorough=dict(chunks=16, maxlen=5, random=40, allx=1)),
+                # "through the complete writer the rejected shape's attribute row is not written either"
+                dict(cmd="complete", spec="Trace_Complete", quick=dict(chunks=4, maxlen=3, types=13, random=4),
+                     thorough=dict(chunks=8, maxlen=5, types=13, random=40))],
         rule="a run = one history with a shape of another type offered at every position; all ordered pairs (file type, offered type)",
     ),
     "C01": dict(
